@@ -580,6 +580,38 @@ def sdmx_plan_configs(cx):
     }
 
 
+def order_diagnosis(chk, cx, plan, decl, where, cname, init):
+    """when rows disagree: read the (l, n) tag of every fit matrix the constructor emitted (degree (n-3)/2 for
+    l=0 integrals, (n-5)/2 for l=1) and compare the emitted sequence with the one get_feat_usps declares
+    (all l=0 terms first, then the l=1 terms)"""
+    fm = plan.attrs.get("fit_matrices")
+    n0v = cx.s.hooks.attribute(cx.s.eng, plan, __import__("ast").Attribute(value=None, attr="num_l0_feat"), deg.Env())
+    n0 = cx.s.eng.int_of(n0v) if n0v is not None else None
+    if not isinstance(fm, Tup) or n0 is None or len(fm.items) != len(decl):
+        return
+    declared = [(0 if i < n0 else 1, d - Lin.const(3)) for i, d in enumerate(decl)]
+    ns = {str(n) for _, n in declared}
+    emitted = []
+    for m in fm.items:
+        lm = lam_of(m)
+        if lm is None:
+            return
+        c0, c1 = lm.scale(2) + Lin.const(3), lm.scale(2) + Lin.const(5)
+        if str(c0) in ns and str(c1) not in ns:
+            emitted.append((0, c0))
+        elif str(c1) in ns and str(c0) not in ns:
+            emitted.append((1, c1))
+        else:
+            return
+    if emitted != declared:
+        k = next(i for i, (a, b) in enumerate(zip(emitted, declared)) if a != b)
+        fmt_ = lambda seq: " ".join("l%d:%s" % (l, n) for l, n in seq)  # noqa: E731
+        chk.violation("sdmx-deg", PL, cname + ".__init__", "order of the SDMX terms of %s" % where, init.lineno,
+                      "the constructor emits its Coulomb/fit matrices in the order [%s] but get_feat_usps / "
+                      "ueg_vector / get_features assume [%s] (all l=0 terms, then all l=1 terms); first difference at "
+                      "position %d" % (fmt_(emitted), fmt_(declared), k))
+
+
 def rule_sdmx_plans(chk, cx):
     """Abstractly run the constructor of every SDMX-like plan (auxiliary exponents alpha ~ lambda^2) and its
     get_features on projections typed lambda^3 (l=0) / lambda^4 (gradient): every feature row must have the
@@ -627,9 +659,12 @@ def rule_sdmx_plans(chk, cx):
                               "%s writes feature rows %s but its settings declare %d features" % (
                                   where, sorted(out.rows), len(decl)))
                 continue
+            n_bad0 = len(chk.findings)
             for i, d in enumerate(decl):
                 cx.expect("sdmx-deg", res, where, out.rows[i], d, "feature %d" % i, PL, cname + ".__init__",
                           "feature %d of %s" % (i, where), init.lineno)
+            if len(chk.findings) > n_bad0:
+                order_diagnosis(chk, cx, plan, decl, where, cname, init)
     chk.count("SDMX-like plan classes", len(plan_classes))
     chk.floor("sdmx-deg", 20, "feature rows of SADM/SDMX/SDMXFull/SDMXInt plans over their settings classes")
 
